@@ -55,7 +55,7 @@ ITEMS = [
      "spec": {"name": "get_fragments", "inputs": [["self.state.remote_mtu", "mtu", "nat"], ["data", "data", "bytes"]]},
      "model": "get_fragments mtu data", "gen": gen_frag, "ncases": 100,
      "live": ("def live(a):\n"
-              "    return MOD.L2CAPLayer.get_fragments(NS(state=NS(remote_mtu=a['mtu'])), a['data'])\n")},
+              "    return MOD.L2CAPLayer.get_fragments(OBJ(MOD.L2CAPLayer, state=NS(remote_mtu=a['mtu'])), a['data'])\n")},
     # on_data_received: the reassembly arithmetic, expression by expression
     _rx("rx_append", {"rhs_of": "self.state.fifo", "nth": 0}, "fifo ++ l2cap_data"),
     _rx("rx_complete_cont", {"test_enclosing": "self.state.fifo", "nth": 1}, "(expected <=? length fifo)%nat"),
